@@ -3,6 +3,7 @@ import copy
 
 import genre
 import implre
+import directed
 
 DESCRIPTION = ("Lean: Props/C10.lean (the wrappers' in-progress set discipline computes exactly the frame-stack semantics; "
                "termination for contracts that re-enter; fuel monotonicity; the upstream discipline diverged). Tie: programs of "
@@ -18,8 +19,15 @@ PROJECTION = "(per top-level call: the ordered log of condition / postcondition 
 ASSUMPTIONS = ["conditions are deterministic scripts (A-oracle)", "user programs whose *bare* bodies recurse without bound are outside the claim"]
 
 
+run_directed = directed.run
+NEIGHBOURS = [{"from": "C11", "limit": 400, "why": "the in-progress marks are released on every exit, so later calls are checked"},
+              {"from": "C03", "limit": 400, "why": "re-entrancy of invariant checks on all member kinds"}]
+
+
 def cases(tier, rng):
     thorough = tier == "thorough"
+    for c in directed.construct_inside_contract_cases():
+        yield "directed-construct-inside-contract", c
     for _ in range(12000 if thorough else 1500):
         c_ = genre.random_program(rng, nfns=3, ncls=2, max_calls=2)
         if genre.cost_within(c_):
